@@ -646,6 +646,61 @@ theorem vector3to4_spec (v : IV) :
   · push_cast; ring
 
 
+/-! ## the documented refusal of `FreeSurface.__init__` -/
+section compat
+variable {K : Type} [Field K] [LinearOrder K] [IsStrictOrderedRing K]
+
+/-- **documented refusal**: `FreeSurface.__init__` refuses a cut vector when the rotated cell, brought to the
+    LAMMPS-normal form by `normalize` (C05's `abcBox?`: lengths and cosines of the rows `A, B, C`), has a
+    component that the cut vector forbids (`b_x, c_x` for `'a'`; `c_y` for `'b'`, `a_y` being 0 by
+    construction; nothing for `'c'`).  The model's test on dot products is that test. -/
+theorem cutCompatible_iff_normalized (sqrt : K → K) (v : M3 K) (hs : C05.SqrtOK sqrt v) :
+    ∃ b2 : Box K, C05.abcBox? sqrt v = some b2 ∧
+      (cutCompatible .a v.r0 v.r1 v.r2 = true ↔ b2.vects.r1.x = 0 ∧ b2.vects.r2.x = 0) ∧
+      (cutCompatible .b v.r0 v.r1 v.r2 = true ↔ b2.vects.r0.y = 0 ∧ b2.vects.r2.y = 0) ∧
+      (cutCompatible .c v.r0 v.r1 v.r2 = true ∧ b2.vects.r0.z = 0 ∧ b2.vects.r1.z = 0) := by
+  obtain ⟨⟨hA2, hA⟩, ⟨hB2, hB⟩, ⟨hC2, hC⟩, ⟨hLY2, hLY⟩, ⟨hLZ2, hLZ⟩⟩ := hs
+  have hA' : 0 < C05.lenA sqrt v := hA
+  have hB' : 0 < C05.lenB sqrt v := hB
+  have hC' : 0 < C05.lenC sqrt v := hC
+  have hLY' : 0 < C05.lenLy sqrt v := hLY
+  have hLZ' : 0 < C05.lenLz sqrt v := hLZ
+  have eA : C05.lenA sqrt v * C05.lenA sqrt v = V3.dot v.r0 v.r0 := hA2
+  have exy : C05.lenA sqrt v * C05.tiltXY sqrt v = V3.dot v.r0 v.r1 := by
+    simp only [C05.tiltXY, C05.cosGamma]; field_simp
+  have exz : C05.lenA sqrt v * C05.tiltXZ sqrt v = V3.dot v.r0 v.r2 := by
+    simp only [C05.tiltXZ, C05.cosBeta]; field_simp
+  have eyz : C05.lenLy sqrt v * C05.tiltYZ sqrt v = V3.dot v.r1 v.r2 - C05.tiltXY sqrt v * C05.tiltXZ sqrt v := by
+    simp only [C05.tiltYZ, C05.cosAlpha]; field_simp
+  refine ⟨⟨⟨⟨C05.lenA sqrt v, 0, 0⟩, ⟨C05.tiltXY sqrt v, C05.lenLy sqrt v, 0⟩,
+    ⟨C05.tiltXZ sqrt v, C05.tiltYZ sqrt v, C05.lenLz sqrt v⟩⟩, ⟨0, 0, 0⟩⟩, ?_, ?_, ?_, ?_⟩
+  · simp only [C05.abcBox?, Box.ofLengths?, hA', hLY', hLZ', and_self, if_true]
+  · simp only [cutCompatible, Bool.and_eq_true, decide_eq_true_eq]
+    constructor
+    · rintro ⟨h1, h2⟩
+      rw [h1] at exy; rw [h2] at exz
+      exact ⟨(mul_eq_zero.mp exy).resolve_left hA'.ne', (mul_eq_zero.mp exz).resolve_left hA'.ne'⟩
+    · rintro ⟨h1, h2⟩
+      rw [h1, mul_zero] at exy; rw [h2, mul_zero] at exz
+      exact ⟨exy.symm, exz.symm⟩
+  · simp only [cutCompatible, decide_eq_true_eq, true_and]
+    -- `ly·yz·|A|² = (B·C)(A·A) - (A·B)(A·C)`
+    have key : C05.lenLy sqrt v * C05.tiltYZ sqrt v * V3.dot v.r0 v.r0
+        = V3.dot v.r1 v.r2 * V3.dot v.r0 v.r0 - V3.dot v.r0 v.r1 * V3.dot v.r0 v.r2 := by
+      rw [eyz, ← exy, ← exz, ← eA]; ring
+    have hAA : 0 < V3.dot v.r0 v.r0 := by rw [← eA]; exact mul_pos hA' hA'
+    constructor
+    · intro h
+      have : C05.lenLy sqrt v * C05.tiltYZ sqrt v * V3.dot v.r0 v.r0 = 0 := by rw [key, h]; ring
+      have h2 := (mul_eq_zero.mp this).resolve_right hAA.ne'
+      exact (mul_eq_zero.mp h2).resolve_left hLY'.ne'
+    · intro h
+      rw [h, mul_zero, zero_mul] at key
+      linarith
+  · exact ⟨rfl, rfl, rfl⟩
+
+end compat
+
 /-! ## `FreeSurface`: termination shifts -/
 section shifts
 variable {K : Type} [Field K] [LinearOrder K] [IsStrictOrderedRing K]
@@ -1612,6 +1667,9 @@ example : layerCoords 7 ([1 / 2, 0, 1 / 2 + 1 / 1000000000, 3 / 4] : List ℚ) =
 example : V3.smul (((2 : ℕ) : ℤ) : ℚ) (⟨1 / 2, 0, 0⟩ : V3 ℚ) = C05.latticeVec exCubic ⟨1, 0, 0⟩ := by decide +kernel
 example : orbit (⟨exCubic, ⟨0, 0, 0⟩⟩ : Box ℚ) ⟨true, true, false⟩ Rat.floor ⟨1 / 2, 0, 0⟩ 2 ⟨1 / 4, 0, 3 / 4⟩
     = [⟨1 / 4, 0, 3 / 4⟩, ⟨3 / 4, 0, 3 / 4⟩] := by decide +kernel
+-- a cell and a square-root table for which `SqrtOK` holds (hypothesis of `cutCompatible_iff_normalized`)
+example : C05.SqrtOK (fun x : ℚ => if x = 4 then 2 else if x = 9 then 3 else 4) ⟨⟨2, 0, 0⟩, ⟨0, 3, 0⟩, ⟨0, 0, 4⟩⟩ := by
+  refine ⟨?_, ?_, ?_, ?_, ?_⟩ <;> unfold C05.SqrtAt <;> decide +kernel
 example : cutMult 3 (some 5) true = 6 ∧ cutMult (-3) none true = -4 ∧ cutMult (-2) (some 5) false = -5 := by decide
 example : pushRadicand .c (5 : ℚ) ⟨3, 0, 1⟩ = 4 * 4 := by decide +kernel
 
